@@ -14,6 +14,31 @@ pub struct Env {
     /// src/messages/mt<type>.rs) — workload guidance only: lets the C13 mutator add fields that
     /// no shipped scenario of the type carries
     pub vocab: BTreeMap<String, Vec<String>>,
+    /// names of the environment variables the library's source reads (`env::var("…")` /
+    /// `var_os("…")` literals under src/), except SWIFT_SCENARIO_PATH which the C15 sample path
+    /// drives itself — configuration space the simulator can put faults into
+    pub env_names: Vec<String>,
+}
+
+/// Values an environment variable of unknown meaning is set to: a flag, a writable file, a sink
+/// that accepts an open but fails every write with ENOSPC (disk full), a path that cannot be opened.
+pub const ENV_FAULT_VALUES: &[&str] = &["1", "/dev/null", "/dev/full", "/nonexistent-dir/mtsim/x", "0"];
+
+/// Applies an environment fault for the duration of a run (the worker executes one run at a time).
+pub fn apply_env_fault(env: &Env, fault: Option<(usize, usize)>) -> Option<String> {
+    let (n, v) = fault?;
+    if env.env_names.is_empty() {
+        return None;
+    }
+    let name = &env.env_names[n % env.env_names.len()];
+    unsafe { std::env::set_var(name, ENV_FAULT_VALUES[v % ENV_FAULT_VALUES.len()]) };
+    Some(name.clone())
+}
+
+pub fn clear_env_fault(name: Option<String>) {
+    if let Some(n) = name {
+        unsafe { std::env::remove_var(n) };
+    }
 }
 
 impl Env {
@@ -43,7 +68,38 @@ impl Env {
             }
             vocab.insert(mt, keys);
         }
-        Ok(Env { scenarios, vocab })
+        // environment variables named in the source
+        let mut env_names: Vec<String> = vec![];
+        fn walk(dir: &std::path::Path, out: &mut Vec<String>) {
+            let Ok(rd) = std::fs::read_dir(dir) else { return };
+            let mut entries: Vec<_> = rd.flatten().map(|e| e.path()).collect();
+            entries.sort();
+            for p in entries {
+                if p.is_dir() {
+                    walk(&p, out);
+                } else if p.extension().and_then(|s| s.to_str()) == Some("rs") {
+                    if let Ok(src) = std::fs::read_to_string(&p) {
+                        for pat in ["var(\"", "var_os(\""] {
+                            let mut rest = src.as_str();
+                            while let Some(i) = rest.find(pat) {
+                                let tail = &rest[i + pat.len()..];
+                                if let Some(q) = tail.find('"') {
+                                    let name = &tail[..q];
+                                    if !name.is_empty() && name.len() < 64 && name.chars().all(|c| c.is_ascii_uppercase() || c.is_ascii_digit() || c == '_') && name != "SWIFT_SCENARIO_PATH" && !out.iter().any(|x| x == name) {
+                                        out.push(name.to_string());
+                                    }
+                                    rest = &tail[q..];
+                                } else {
+                                    break;
+                                }
+                            }
+                        }
+                    }
+                }
+            }
+        }
+        walk(&crate::scen::repo_root().join("src"), &mut env_names);
+        Ok(Env { scenarios, vocab, env_names })
     }
 }
 
@@ -327,6 +383,10 @@ pub trait Engine {
     fn shrink_candidates(spec: &Self::Spec) -> Vec<Self::Spec>;
     /// A short human-readable description for evidence samples.
     fn describe(spec: &Self::Spec) -> serde_json::Value;
+    /// A scaled-up variant of a recorded (corpus) run, if the engine has a notion of scale.
+    fn amplify(_spec: &Self::Spec) -> Option<Self::Spec> {
+        None
+    }
 }
 
 /// Runs `f` on a fresh OS thread (fresh `RandomState` keys, fresh `ThreadRng`),
